@@ -137,3 +137,119 @@ def forms(draw, max_parts: int = 6, max_pieces: int = 8) -> Dict[str, Any]:
 def cut_lists(max_len: int = 400):
     """Hypothesis-drawn multi-cut partitions (repeats = empty chunks)."""
     return st.lists(st.integers(0, max_len), max_size=8)
+
+
+# ------------------------------------------------------------------------------------------
+# response recipes (see harness/recipes.py)
+
+HEADER_NAMES = ["x-a", "X-B", "Cache-Control", "Vary", "Content-Language", "x-empty", "ETag", "X-Frame-Options", "x-inner", "Link", "Server-Timing"]
+_hval = st.one_of(
+    st.sampled_from(["1", "no-cache", "a, b", "", "é", "ÿ", "x y", "\tq", "max-age=0", "W/\"x\"", "<a>; rel=next", "value"]),
+    st.text(alphabet=st.characters(min_codepoint=0x20, max_codepoint=0xFF, exclude_characters="\x7f"), max_size=8),
+)
+
+
+def header_dicts(max_size: int = 3):
+    return st.dictionaries(st.sampled_from(HEADER_NAMES), _hval, max_size=max_size)
+
+
+def header_ops():
+    name = st.sampled_from(HEADER_NAMES)
+    return st.lists(
+        st.one_of(
+            st.tuples(st.just("set"), name, _hval),
+            st.tuples(st.just("append"), name, _hval),
+            st.tuples(st.just("setdefault"), name, _hval),
+            st.tuples(st.just("del"), name),
+        ).map(list),
+        max_size=3,
+    )
+
+
+_cookie_value = st.one_of(st.sampled_from(["v", "", "a b", 'q"uote', "semi;colon", "é", "a=b", "x,y"]), st.text(alphabet=st.characters(max_codepoint=255), max_size=6))
+
+
+def cookie_lists():
+    return st.lists(
+        st.fixed_dictionaries(
+            {"name": st.sampled_from(["sid", "a", "k.1", "theme", "x_y"]), "value": _cookie_value},
+            optional={"max_age": st.sampled_from([0, 60]), "expires": st.sampled_from([0, 3600]), "httponly": st.booleans(), "secure": st.booleans(),
+                      "samesite": st.sampled_from(["lax", "strict", "none"]), "domain": st.sampled_from(["example.com"]), "delete": st.booleans()},
+        ),
+        max_size=3,
+    )
+
+
+STATUSES = [200, 200, 200, 201, 202, 204, 206, 301, 302, 304, 307, 400, 401, 403, 404, 410, 418, 422, 500, 503, 299, 599, 499, 226, 451, 100, 103]
+
+_json_leaf = st.one_of(st.none(), st.booleans(), st.integers(-10**6, 10**6), st.sampled_from(["", "a", "é", "中文", " ", "\"q\"", "\\", "\n"]), st.floats(allow_nan=False, allow_infinity=False, width=32))
+json_values = st.recursive(_json_leaf, lambda ch: st.one_of(st.lists(ch, max_size=3), st.dictionaries(st.sampled_from(["a", "b", "k", "é"]), ch, max_size=3)), max_leaves=8)
+
+_text_content = st.one_of(st.sampled_from(["", "hello", "é", "中文", "line\r\n", "\x00", "<b>x</b>"]), st.text(max_size=12))
+_bytes_content = st.one_of(st.sampled_from([b"", b"hello", b"\xff\x00", b"\r\n"]), st.binary(max_size=12))
+
+FILE_NAMES = ["f.txt", "f.bin", "page.html", "résumé.txt", "数据.bin", "data", "a b.txt", "x.json"]
+DOWNLOAD_NAMES = [None, None, None, "report.pdf", "naïve.txt", "中文.pdf", "a b.csv", "x;y.txt"]
+
+
+@st.composite
+def response_recipes(draw, kinds=("empty", "plain", "html", "json", "redirect", "stream", "sse", "file"), faults: bool = False):
+    kind = draw(st.sampled_from(kinds))
+    r = {"kind": kind}
+    if kind != "file":
+        if draw(st.booleans()):
+            r["status"] = draw(st.sampled_from(STATUSES))
+    if draw(st.booleans()):
+        r["headers"] = draw(header_dicts())
+    if draw(st.integers(0, 2)) == 0:
+        r["header_ops"] = draw(header_ops())
+    if draw(st.integers(0, 2)) == 0:
+        r["cookies"] = draw(cookie_lists())
+    if kind in ("plain", "html"):
+        r["content"] = draw(st.one_of(_text_content, _bytes_content))
+        if draw(st.integers(0, 4)) == 0:
+            r["media_type"] = draw(st.sampled_from(["text/css", "application/xml", "text/plain", "image/svg+xml"]))
+        if draw(st.integers(0, 4)) == 0 and isinstance(r["content"], str):
+            cs = draw(st.sampled_from(["utf-8", "utf-16", "gbk", "latin-1"]))
+            try:
+                r["content"].encode(cs)
+                r["charset"] = cs
+            except UnicodeEncodeError:
+                pass
+        if isinstance(r["content"], str):
+            try:
+                r["content"].encode(r.get("charset", "utf-8"))
+            except UnicodeEncodeError:  # lone surrogates etc.: caller error, not generated
+                r["content"] = "x"
+    elif kind == "json":
+        r["content"] = draw(json_values)
+    elif kind == "redirect":
+        r["url"] = draw(st.sampled_from(["/", "/next", "https://example.org/a?b=1#c", "/é", "/a b", "//host/x", "?q=1", ""]))
+    elif kind == "stream":
+        r["chunks"] = draw(st.lists(st.one_of(st.just(b""), st.binary(min_size=1, max_size=6)), max_size=5))
+        if draw(st.integers(0, 3)) == 0:
+            r["content_type"] = draw(st.sampled_from(["text/plain", "application/x-ndjson"]))
+        if faults and draw(st.integers(0, 2)) == 0:
+            r["raise_at"] = draw(st.integers(0, len(r["chunks"])))
+    elif kind == "sse":
+        r["events"] = draw(
+            st.lists(
+                st.fixed_dictionaries({"data": st.sampled_from(["x", "a\nb", "", "é"])}, optional={"event": st.sampled_from(["e", "update"]), "id": st.sampled_from(["1", "abc"]), "retry": st.sampled_from([0, 3000])}),
+                max_size=4,
+            )
+        )
+        if faults and draw(st.integers(0, 2)) == 0:
+            r["raise_at"] = draw(st.integers(0, len(r["events"])))
+    elif kind == "file":
+        r["name"] = draw(st.sampled_from(FILE_NAMES))
+        r["size"] = draw(st.sampled_from([0, 1, 5, 64, 200]))
+        r["chunk"] = draw(st.sampled_from([1, 3, 64, 4096]))
+        dn = draw(st.sampled_from(DOWNLOAD_NAMES))
+        if dn:
+            r["download_name"] = dn
+        if draw(st.integers(0, 4)) == 0:
+            r["content_type"] = draw(st.sampled_from(["image/png", "text/plain; charset=utf-8", "application/octet-stream"]))
+    return r
+
+
+RANGE_HEADERS = [None, None, "bytes=0-0", "bytes=1-3", "bytes=-2", "bytes=2-", "bytes=0-0,2-3", "bytes=0-1,3-", "bytes=9999-", "bytes=3-1", "bogus", "bytes=", ""]
